@@ -110,6 +110,19 @@ pub open spec fn choice_step<'a, T>(h: ChoiceHelper<'a, T>, o: ParseResult<'a, T
     }
 }
 
+// the two halves of choice_step, so that a failed obligation is charged to the property whose sentence it is:
+// what is returned and where the cursor stands (C01, C02) ...
+pub open spec fn choice_step_val<'a, T>(h: ChoiceHelper<'a, T>, o: ParseResult<'a, T>, r: ChoiceHelper<'a, T>) -> bool {
+    &&& r.st().idx() == h.st().idx()
+    &&& r.st().rest() == h.st().rest()
+    &&& match o { Ok(k) => r.res() == Some(k), Err(e) => r.res().is_none() }
+}
+// ... and what is recorded as the furthest error (C10). The clause labelled LINK states the two for the same outcome
+// (it is what the n-ary choice theorem consumes); it fails only if one of the halves does.
+pub open spec fn choice_step_err<'a, T>(h: ChoiceHelper<'a, T>, o: ParseResult<'a, T>, r: ChoiceHelper<'a, T>) -> bool {
+    match o { Ok(k) => r.st().far() == h.st().far(), Err(e) => r.st().far() == Some(furthest(h.st().far(), e)) }
+}
+
 // ---- more assumed std specifications ----
 pub open spec fn is_ws_byte(b: u8) -> bool {
     b == 0x20 || b == 0x09 || b == 0x0A || b == 0x0C || b == 0x0D
@@ -150,6 +163,11 @@ pub open spec fn matched<'a, T>(state: ParseState<'a>, r: ParseResult<'a, T>, v:
 // result of a terminal matcher that failed with its own specifics at the current offset
 pub open spec fn failed<'a, T>(state: ParseState<'a>, r: ParseResult<'a, T>, sp: ParseErrorSpecifics) -> bool {
     r matches Err(e) && e == furthest(state.far(), state.own_error(sp))
+}
+
+// the error-content half of `failed` (C10's sentence); together with `r is Err` (C01's sentence) it is `failed`
+pub open spec fn failed_if_err<'a, T>(state: ParseState<'a>, r: ParseResult<'a, T>, sp: ParseErrorSpecifics) -> bool {
+    r matches Err(e) ==> e == furthest(state.far(), state.own_error(sp))
 }
 
 pub open spec fn is_ascii_bytes(b: Seq<u8>) -> bool { forall|i: int| 0 <= i < b.len() ==> #[trigger] b[i] < 0x80 }
